@@ -118,6 +118,39 @@ def main():
             if bad:
                 done(confirmed=True, input=dict(upstream=up, prefix=pre, strip_prefix=strip, request=url, upstream_behaviour=behaviour),
                      observed=dict(fetches=calls, violated=bad), clause="C17/C18: only the upstream is contacted, URL mapped faithfully, faults become 43")
+    # configuration: several proxy locations (same and different upstreams) built by ServerConfig.get_location_router
+    try:
+        import tempfile
+        from nauyaca.server.config import ServerConfig
+        from nauyaca.server.location import HandlerType, LocationConfig
+        root = tempfile.mkdtemp()
+        locs = [LocationConfig(prefix="/blog/", handler_type=HandlerType.PROXY, upstream="gemini://backend.example:1966", strip_prefix=True, timeout=5.0),
+                LocationConfig(prefix="/gemlog/", handler_type=HandlerType.PROXY, upstream="gemini://backend.example:1966", strip_prefix=True, timeout=5.0),
+                LocationConfig(prefix="/raw/", handler_type=HandlerType.PROXY, upstream="gemini://backend.example:1966", strip_prefix=False, timeout=5.0),
+                LocationConfig(prefix="/other/", handler_type=HandlerType.PROXY, upstream="gemini://other.example", strip_prefix=True, timeout=5.0)]
+        router = ServerConfig(document_root=root, locations=locs).get_location_router()
+        for loc, path in itertools.product(locs, ["post.gmi?q=2", "", "a/b"]):
+            tried += 1
+            seen = []
+
+            async def fake_get(url, follow_redirects=True, _s=seen):
+                _s.append(url)
+                return GeminiResponse(status=20, meta="text/gemini", body="ok")
+            for r in router.routes:
+                h = getattr(r.handler, "__self__", None)
+                if h is not None and hasattr(h, "_client"):
+                    h._client.get = fake_get
+            req = GeminiRequest.from_line("gemini://front.example" + loc.prefix + path)
+            res = router.route(req)
+            if asyncio.iscoroutine(res):
+                asyncio.run(res)
+            want = loc.upstream.rstrip("/") + spec_map(loc.prefix, loc.strip_prefix, req.path) + ("?" + req.query if req.query else "")
+            if seen != [want]:
+                done(confirmed=True, input=dict(locations=[(x.prefix, x.upstream, x.strip_prefix) for x in locs], request=req.raw_url),
+                     observed=dict(fetched=seen, expected=[want], violated=["the location's own prefix / upstream settings were not the ones applied"]),
+                     clause="C17: each proxied location forwards to its own upstream with its own prefix handling")
+    except ImportError:
+        pass
     # end to end through the REAL client: what reaches the upstream's socket is the mapped URL, character for character
     for path, q in itertools.product(["/a%2Fb", "/x%3Fy", "/k%3Dv%26w", "/semi%3Bcolon", "/dots/%2e%2e/up", "/sp%20ace", "/pct%25", "/u%C3%A9", "/bad%FF", "/plain", "/a;b=1", "/~t/!$&'()*+,=:@"],
                                      ["", "?q=%26%3D", "?a=b&c=d", "?x%20y"]):
